@@ -37,6 +37,64 @@ package traversal
 //                error (the tree is complete before the last segment is taken); otherwise either nil with
 //                the complete multiset or the memory error with a duplicate-free sub-multiset.
 //   no root:     Plan{} without Root and RootSegment returns an error and leaves no goroutine.
+//
+// EXTENSION X17 (three further input classes; everything above is unchanged).
+//
+// X1. Shared skip/limit filters and counters under concurrency. ONE FilteredSkipLimit filter (every
+//     (skip, limit) with skip in {0,1,W} and limit in {0,1,W-1,W,W+1}) and ONE atomics.NewCounter (both
+//     instantiations that exist in the repository, uint32 and uint64, maximum in {0,1,W-1,W,W+1}) is
+//     hammered by W in {1,2,8} goroutines that leave a spinning start barrier together; every goroutine
+//     makes ceil((skip+limit)/W)+2 calls with segments of its own. Two item mixes: all items collectable,
+//     and every third item not collectable (filter returns canCollect=false). tvTrials(bound) fresh
+//     filters/counters per configuration and W>1 (bound "1": 4000, bound "2": 20000; W=1: 50).
+//     ORACLE (a correct implementation satisfies it for EVERY schedule, so there is no tolerance): with C
+//     collectable calls, exactly min(skip,C) calls are skipped (returned shouldDescend, visitor not run),
+//     exactly min(limit, C-min(skip,C)) calls (all of the remainder when limit=0) run the visitor - never one
+//     more, never one less -, every other collectable call is rejected, a non-collectable call never runs
+//     the visitor and returns its shouldDescend, and the visitor runs at most once per call. A counter with
+//     maximum m answers false exactly min(m, calls) times and true ever after.
+//     A check-then-increment counter (Load; compare; Add) overshoots in a measured 20-60 % of the W=8 trials
+//     of ONE configuration with limit>=W-1 on this 16 CPU machine (see the mutation report), so over the
+//     4000 x 30 such trials of bound "1" the chance of missing it is far below 1e-1000.
+//     Sequential semantics, exhaustive: every sequence of up to 5 (bound "2": 6) filter answers
+//     (canCollect, shouldDescend) x skip, limit in {0,1,2}; same oracle; the return value of a call is
+//     checked against shouldDescend except for limit-rejected calls (not specified).
+//
+// X2. Path tree size accounting (graph.PathSegment Descend / Detach / SizeOf). Every tree with up to 6
+//     (bound "2": 7) segments, built by Descend in every admissible creation order (all parent arrays
+//     p[i] < i: 1+1+2+6+24+120 = 154 trees, bound "2" +720), nodes and edges of differing sizes, x every
+//     sequence of 0..3 Detach calls on non-root segments (repetitions allowed, hence "same segment twice",
+//     "segment then ancestor", "segment then descendant"). Detach of the root is not enumerated: the
+//     property does not say what a root is detached from.
+//     ORACLE: own(x) is calibrated on the freshly built tree as SizeOf(x) minus the SizeOf of its branches
+//     (no size formula is copied from the code); the harness keeps its own model of which parent links are
+//     intact. After the sequence: root.SizeOf() == sum of own(x) over the segments still linked to the root;
+//     the same for every segment still linked to the root and its own subtree; no segment (attached or not)
+//     reports more than the size of the complete tree (an unsigned underflow shows up as an absurdly large
+//     value); Branches of every segment == the model's intact children in creation order; a Detach of a
+//     segment that was detached before changes no SizeOf and no Branches anywhere. Descend is checked on
+//     the way: own(x) - (SizeOf(x) when x was created as a leaf) is 0 for a segment without branches, depends
+//     only on cap(Branches), and every Descend adds the same amount to every ancestor.
+//     BreadthFirst + detaching drivers: on the digraph enumeration above (bound "2": the fault sample),
+//     every root and worker count, RootSegment given, memory limit = size of the complete path tree of the
+//     run without detaches (an upper bound of the true size - the sum of what is still attached - at every
+//     moment of every schedule), with the drivers
+//       filter-detach(S):  children whose node is in S are created by Descend, detached and not returned
+//                          (S = every non-empty node subset);
+//       terminal-detach:   a segment without children is detached once it has been visited;
+//       terminal-prune:    the same and every non-root trunk left without branches is detached as well;
+//       trunk-detach(S):   a visited segment of depth >= 2 whose node is in S detaches its trunk (the visitor
+//                          gives up the branch; work in flight below it carries on), terminals are detached.
+//     ORACLE: BreadthFirst returns nil (in particular no ops.ErrGraphQueryMemoryLimit), the visit multiset
+//     is the sequential one (filter-detach: the walks that avoid S after the root), the root's SizeOf()
+//     afterwards lies in [own(root), size of the complete tree] and equals own(root) for terminal-prune.
+//
+// Known deviation classes (switched on by naming them in VERIF_KNOWN, "|"-separated; counted under
+// known_deviation_hits instead of failures; nothing is suppressed without the variable):
+//   "detach-below-detached": X2 inputs in which a Detach is applied to a segment one of whose strict
+//        ancestors was detached earlier (sequential part: recognised on the Detach sequence; BreadthFirst
+//        part: the trunk-detach(S) driver, the only one that can produce such an order).
+//   "skiplimit-concurrent": X1 concurrent trials (no deviation found; present so that a finding can be triaged).
 
 import (
 	"context"
@@ -56,6 +114,7 @@ import (
 
 	"github.com/specterops/dawgs/graph"
 	"github.com/specterops/dawgs/ops"
+	"github.com/specterops/dawgs/util/atomics"
 	"github.com/specterops/dawgs/util/size"
 )
 
@@ -127,6 +186,25 @@ func tvSequential(g *tvGraph, root, depth int) map[string]int {
 	return out
 }
 
+// tvSequentialAvoid: the walks of tvSequential whose nodes after the root avoid the subset set.
+func tvSequentialAvoid(g *tvGraph, root, depth, set int) map[string]int {
+	out := map[string]int{}
+	var rec func(path []int)
+	rec = func(path []int) {
+		out[tvKey(path)]++
+		if len(path)-1 >= depth {
+			return
+		}
+		for _, v := range g.adj[path[len(path)-1]] {
+			if set&(1<<uint(v)) == 0 {
+				rec(append(append([]int{}, path...), v))
+			}
+		}
+	}
+	rec([]int{root})
+	return out
+}
+
 func tvKey(path []int) string {
 	parts := make([]string, len(path))
 	for i, p := range path {
@@ -145,10 +223,32 @@ type tvRun struct {
 	cancelAt int64 // k-th invocation cancels the caller's context (0: never, -1: before the call)
 	limit    size.Size
 	salt     uint32
+	policy   int // X2: detaching driver (tvPol*), 0: none
+	set      int // X2: node subset S of the policy as a bit mask
 }
 
+const (
+	tvPolNone = iota
+	tvPolFilterDetach
+	tvPolTerminalDetach
+	tvPolTerminalPrune
+	tvPolTrunkDetach
+)
+
+var tvPolName = []string{"none", "filter-detach", "terminal-detach", "terminal-prune", "trunk-detach"}
+
 func (r tvRun) String() string {
-	return fmt.Sprintf("%s root=%d depth<=%d workers=%d rootSegment=%v failAt=%d cancelAt=%d memLimit=%d", r.g.desc, r.root, r.depth, r.workers, r.rootSeg, r.failAt, r.cancelAt, r.limit)
+	s := fmt.Sprintf("%s root=%d depth<=%d workers=%d rootSegment=%v failAt=%d cancelAt=%d memLimit=%d", r.g.desc, r.root, r.depth, r.workers, r.rootSeg, r.failAt, r.cancelAt, r.limit)
+	if r.policy != tvPolNone {
+		var set []int
+		for i := 0; i < r.g.n; i++ {
+			if r.set&(1<<uint(i)) != 0 {
+				set = append(set, i)
+			}
+		}
+		s += fmt.Sprintf(" driver=%s S=%v", tvPolName[r.policy], set)
+	}
+	return s
 }
 
 type tvOutcome struct {
@@ -159,6 +259,7 @@ type tvOutcome struct {
 	logLen       int
 	leak         string
 	initial, fin size.Size
+	rootOwn      size.Size // fin minus the sizes of the root's branches (RootSegment runs only)
 }
 
 func tvSettleGoroutines(before int) (int, bool) {
@@ -230,7 +331,27 @@ func tvExecute(r tvRun) tvOutcome {
 			descendLock.Lock()
 			for _, v := range r.g.adj[cur] {
 				rel := graph.NewRelationship(graph.ID(nextEdgeID.Add(1)), tvNodeID(cur), tvNodeID(v), nil, edgeKind)
-				children = append(children, segment.Descend(r.g.nodes[v], rel))
+				child := segment.Descend(r.g.nodes[v], rel)
+				if r.policy == tvPolFilterDetach && r.set&(1<<uint(v)) != 0 {
+					child.Detach()
+					continue
+				}
+				children = append(children, child)
+			}
+			descendLock.Unlock()
+		}
+		if r.policy != tvPolNone && r.policy != tvPolFilterDetach && len(path) > 1 {
+			descendLock.Lock()
+			if r.policy == tvPolTrunkDetach && len(path) > 2 && r.set&(1<<uint(path[len(path)-1])) != 0 {
+				segment.Trunk.Detach()
+			}
+			if len(children) == 0 {
+				segment.Detach()
+				if r.policy == tvPolTerminalPrune {
+					for trunk := segment.Trunk; trunk != nil && trunk.Trunk != nil && len(trunk.Branches) == 0; trunk = trunk.Trunk {
+						trunk.Detach()
+					}
+				}
 			}
 			descendLock.Unlock()
 		}
@@ -293,6 +414,10 @@ func tvExecute(r tvRun) tvOutcome {
 	if r.rootSeg {
 		descendLock.Lock()
 		out.fin = graph.Tree{Root: rootSegment}.SizeOf()
+		out.rootOwn = out.fin
+		for _, branch := range rootSegment.Branches {
+			out.rootOwn -= branch.SizeOf()
+		}
 		descendLock.Unlock()
 	}
 	snapshot()
@@ -321,8 +446,495 @@ func tvDiff(got, want map[string]int) (missing, extra []string) {
 	return
 }
 
+func tvSortedKeys(m map[string]bool) []string {
+	out := []string{}
+	for k := range m {
+		out = append(out, k)
+	}
+	sort.Strings(out)
+	return out
+}
+
 func tvIsCtxErr(err error) bool {
 	return errors.Is(err, context.Canceled) || errors.Is(err, context.DeadlineExceeded) || errors.Is(err, graph.ErrContextTimedOut)
+}
+
+
+// ---------------------------------------------------------------------------------------------------
+// EXTENSION X17
+// ---------------------------------------------------------------------------------------------------
+
+type tvExt struct {
+	known    map[string]bool
+	hits     map[string]int
+	examples map[string][]string
+	sub      map[string]int
+}
+
+func (x *tvExt) hit(class, msg string) {
+	x.hits[class]++
+	if len(x.examples[class]) < 2 {
+		x.examples[class] = append(x.examples[class], msg)
+	}
+}
+
+// tvKnownFromEnv: deviation classes come from /verif/known_findings.json through VERIF_KNOWN.
+func tvKnownFromEnv() map[string]bool {
+	out := map[string]bool{}
+	for _, p := range strings.Split(os.Getenv("VERIF_KNOWN"), "|") {
+		if p = strings.TrimSpace(p); p == "detach-below-detached" || p == "skiplimit-concurrent" {
+			out[p] = true
+		}
+	}
+	return out
+}
+
+// ---- X1: shared skip/limit filters and counters under concurrency
+
+type tvCallRec struct {
+	collectable bool
+	visits      int32
+	ret         bool
+}
+
+// tvStartBarrier releases all workers together: they announce themselves and then spin on a flag.
+type tvStartBarrier struct {
+	ready atomic.Int32
+	start atomic.Bool
+}
+
+func (b *tvStartBarrier) wait() {
+	b.ready.Add(1)
+	for spins := 0; !b.start.Load(); spins++ {
+		if spins > 20000 {
+			runtime.Gosched()
+		}
+	}
+}
+
+func (b *tvStartBarrier) release(workers int) {
+	for spins := 0; b.ready.Load() != int32(workers); spins++ {
+		if spins > 200 {
+			runtime.Gosched()
+		}
+	}
+	b.start.Store(true)
+}
+
+func tvClip(total, skip, limit int) (skipped, accepted int) {
+	skipped = skip
+	if skipped > total {
+		skipped = total
+	}
+	accepted = total - skipped
+	if limit > 0 && accepted > limit {
+		accepted = limit
+	}
+	return
+}
+
+func tvConcurrentSkipLimit(x *tvExt, trials int, failNow func(class, msg string)) {
+	node := graph.NewNode(1, nil, graph.StringKind("n"))
+	for _, workers := range []int{1, 2, 8} {
+		n := trials
+		if workers == 1 {
+			n = 50
+		}
+		limits := map[int]bool{}
+		for _, limit := range []int{0, 1, workers - 1, workers, workers + 1} {
+			if limit >= 0 {
+				limits[limit] = true
+			}
+		}
+		skips := map[int]bool{0: true, 1: true, workers: true}
+		for limit := range limits {
+			// (a) the counter itself, both instantiations
+			for _, width := range []int{32, 64} {
+				per := limit/workers + 2
+				bad := 0
+				for trial := 0; trial < n && bad < 3; trial++ {
+					var counter func() bool
+					if width == 32 {
+						counter = atomics.NewCounter(uint32(limit))
+					} else {
+						counter = atomics.NewCounter(uint64(limit))
+					}
+					var (
+						barrier tvStartBarrier
+						wg      sync.WaitGroup
+						falses  atomic.Int64
+					)
+					for w := 0; w < workers; w++ {
+						wg.Add(1)
+						go func() {
+							defer wg.Done()
+							barrier.wait()
+							for j := 0; j < per; j++ {
+								if !counter() {
+									falses.Add(1)
+								}
+							}
+						}()
+					}
+					barrier.release(workers)
+					wg.Wait()
+					x.sub["concurrent_counter_trials"]++
+					want := limit
+					if workers*per < want {
+						want = workers * per
+					}
+					if got := int(falses.Load()); got != want || !counter() {
+						bad++
+						failNow("skiplimit-concurrent", fmt.Sprintf("atomics.NewCounter[uint%d](%d) called %d times by each of %d goroutines released together (trial %d): answered false %d times, want exactly %d, and true afterwards", width, limit, per, workers, trial, got, want))
+					}
+				}
+			}
+			// (b) the filter
+			for skip := range skips {
+				for _, mixed := range []bool{false, true} {
+					per := (skip+limit+workers-1)/workers + 2
+					if mixed {
+						per += per / 2
+					}
+					recs := make([][]tvCallRec, workers)
+					segs := make([][]*graph.PathSegment, workers)
+					collectable := 0
+					for w := range recs {
+						recs[w] = make([]tvCallRec, per)
+						segs[w] = make([]*graph.PathSegment, per)
+						for j := range segs[w] {
+							segs[w][j] = graph.NewRootPathSegment(node)
+							segs[w][j].Tag = &recs[w][j]
+							recs[w][j].collectable = !mixed || (w+j)%3 != 2
+							if recs[w][j].collectable {
+								collectable++
+							}
+						}
+					}
+					wantSkipped, wantAccepted := tvClip(collectable, skip, limit)
+					bad := 0
+					for trial := 0; trial < n && bad < 3; trial++ {
+						for w := range recs {
+							for j := range recs[w] {
+								recs[w][j].visits, recs[w][j].ret = 0, false
+							}
+						}
+						filter := FilteredSkipLimit(func(next *graph.PathSegment) (bool, bool) {
+							return next.Tag.(*tvCallRec).collectable, true
+						}, func(next *graph.PathSegment) {
+							atomic.AddInt32(&next.Tag.(*tvCallRec).visits, 1)
+						}, skip, limit)
+						var (
+							barrier tvStartBarrier
+							wg      sync.WaitGroup
+						)
+						for w := 0; w < workers; w++ {
+							wg.Add(1)
+							go func(w int) {
+								defer wg.Done()
+								barrier.wait()
+								for j := range segs[w] {
+									recs[w][j].ret = filter(segs[w][j])
+								}
+							}(w)
+						}
+						barrier.release(workers)
+						wg.Wait()
+						x.sub["concurrent_filter_trials"]++
+						accepted, skipped, rejected, wrong := 0, 0, 0, ""
+						for w := range recs {
+							for j := range recs[w] {
+								rec := &recs[w][j]
+								switch {
+								case rec.visits > 1:
+									wrong = fmt.Sprintf("the visitor ran %d times for one call", rec.visits)
+								case !rec.collectable && (rec.visits != 0 || !rec.ret):
+									wrong = fmt.Sprintf("a call whose filter answered canCollect=false, shouldDescend=true ran the visitor %d times and returned %v", rec.visits, rec.ret)
+								case !rec.collectable:
+								case rec.visits == 1:
+									accepted++
+									if !rec.ret {
+										wrong = "a collected call returned false although its filter answered shouldDescend=true"
+									}
+								case rec.ret:
+									skipped++
+								default:
+									rejected++
+								}
+							}
+						}
+						if wrong != "" || accepted != wantAccepted || skipped != wantSkipped || rejected != collectable-wantAccepted-wantSkipped {
+							bad++
+							failNow("skiplimit-concurrent", fmt.Sprintf("FilteredSkipLimit(skip=%d, limit=%d) shared by %d goroutines released together, %d calls each, %d collectable calls in all (trial %d): %d collected, %d skipped, %d rejected; want exactly %d collected, %d skipped, %d rejected %s", skip, limit, workers, per, collectable, trial, accepted, skipped, rejected, wantAccepted, wantSkipped, collectable-wantAccepted-wantSkipped, wrong))
+						}
+					}
+				}
+			}
+		}
+	}
+}
+
+// tvSequentialSkipLimit: every sequence of filter answers up to maxLen x skip, limit in {0,1,2}, one goroutine.
+func tvSequentialSkipLimit(x *tvExt, maxLen int, failNow func(class, msg string)) {
+	node := graph.NewNode(1, nil, graph.StringKind("n"))
+	type answer struct{ collect, descend bool }
+	var seq []answer
+	check := func() {
+		for skip := 0; skip <= 2; skip++ {
+			for limit := 0; limit <= 2; limit++ {
+				x.sub["sequential_filter_cases"]++
+				visited := -1
+				cursor := 0
+				filter := FilteredSkipLimit(func(next *graph.PathSegment) (bool, bool) {
+					return seq[cursor].collect, seq[cursor].descend
+				}, func(next *graph.PathSegment) { visited = cursor }, skip, limit)
+				var got, want []string
+				collectable := 0
+				for cursor = 0; cursor < len(seq); cursor++ {
+					visited = -1
+					ret := filter(graph.NewRootPathSegment(node))
+					// oracle
+					state := "pass"
+					if seq[cursor].collect {
+						collectable++
+						switch {
+						case collectable <= skip:
+							state = "skipped"
+						case limit == 0 || collectable-skip <= limit:
+							state = "collected"
+						default:
+							state = "rejected"
+						}
+					}
+					wantRet := fmt.Sprint(seq[cursor].descend)
+					gotState := "pass"
+					switch {
+					case visited == cursor:
+						gotState = "collected"
+					case state == "rejected" || state == "skipped":
+						// not observable apart from the return value: a skipped call returns shouldDescend
+						gotState = state
+					}
+					gotRet := fmt.Sprint(ret)
+					if state == "rejected" {
+						wantRet, gotRet = "-", "-"
+					}
+					want = append(want, state+"/"+wantRet)
+					got = append(got, gotState+"/"+gotRet)
+				}
+				if strings.Join(got, " ") != strings.Join(want, " ") {
+					failNow("", fmt.Sprintf("FilteredSkipLimit(skip=%d, limit=%d), one goroutine, filter answers (canCollect,shouldDescend) %v: per call outcome/return %v, want %v", skip, limit, seq, got, want))
+				}
+			}
+		}
+	}
+	var rec func()
+	rec = func() {
+		check()
+		if len(seq) == maxLen {
+			return
+		}
+		for _, a := range []answer{{false, false}, {false, true}, {true, false}, {true, true}} {
+			seq = append(seq, a)
+			rec()
+			seq = seq[:len(seq)-1]
+		}
+	}
+	rec()
+}
+
+// ---- X2: path tree size accounting
+
+func tvSizeAccounting(x *tvExt, maxSegments, maxDetach int, failNow func(class, msg string)) {
+	kinds := []graph.Kind{graph.StringKind("a"), graph.StringKind("bb"), graph.StringKind("ccc")}
+	edgeKind := graph.StringKind("e")
+	var nodes []*graph.Node
+	for i := 0; i < maxSegments; i++ {
+		nodes = append(nodes, graph.NewNode(graph.ID(100+i), nil, kinds[:i%3+1]...))
+	}
+	reported := map[string]int{}
+	report := func(class, kind, msg string) {
+		// at most 2 messages per kind of violation, so that the failure list shows the different symptoms
+		reported[kind]++
+		failNow(class, msg)
+	}
+	_ = reported
+
+	var parents []int // parents[i] = creation index of the trunk of segment i (parents[0] unused)
+	runSequence := func(seq []int) {
+		x.sub["size_accounting_cases"]++
+		k := len(parents)
+		segs := make([]*graph.PathSegment, k)
+		leaf := make([]size.Size, k)
+		segs[0] = graph.NewRootPathSegment(nodes[0])
+		leaf[0] = segs[0].SizeOf()
+		where := func() string { return fmt.Sprintf("tree parents=%v (segment i>0 hangs below segment parents[i], segment 0 is the root) Detach sequence %v", parents[1:], seq) }
+		for i := 1; i < k; i++ {
+			before := make([]size.Size, i)
+			for j := 0; j < i; j++ {
+				before[j] = segs[j].SizeOf()
+			}
+			rel := graph.NewRelationship(graph.ID(500+i), nodes[parents[i]].ID, nodes[i].ID, nil, edgeKind)
+			segs[i] = segs[parents[i]].Descend(nodes[i], rel)
+			leaf[i] = segs[i].SizeOf()
+			// every ancestor grows by the same amount (>= the new leaf), nothing else changes
+			onChain := map[int]bool{}
+			for a := parents[i]; ; a = parents[a] {
+				onChain[a] = true
+				if a == 0 {
+					break
+				}
+			}
+			delta := segs[parents[i]].SizeOf() - before[parents[i]]
+			for j := 0; j < i; j++ {
+				d := segs[j].SizeOf() - before[j]
+				if (onChain[j] && (d != delta || d < leaf[i])) || (!onChain[j] && d != 0) {
+					report("", "descend", fmt.Sprintf("%s: Descend creating segment %d (leaf size %d) changed SizeOf of segment %d by %d, its trunk's by %d", where(), i, leaf[i], j, d, delta))
+				}
+			}
+		}
+		// calibration on the complete tree
+		own := make([]size.Size, k)
+		for i := 0; i < k; i++ {
+			own[i] = segs[i].SizeOf()
+		}
+		for i := 1; i < k; i++ {
+			own[parents[i]] -= segs[i].SizeOf()
+		}
+		full := segs[0].SizeOf()
+		capExtra := map[int]size.Size{}
+		for i := 0; i < k; i++ {
+			extra := own[i] - leaf[i]
+			c := cap(segs[i].Branches)
+			if own[i] < leaf[i] || (c == 0 && extra != 0) {
+				report("", "calibration", fmt.Sprintf("%s: after building, segment %d accounts %d bytes for itself, %d when it was a leaf, cap(Branches)=%d", where(), i, own[i], leaf[i], c))
+			}
+			if prev, seen := capExtra[c]; seen && prev != extra {
+				report("", "calibration", fmt.Sprintf("%s: two segments with cap(Branches)=%d account %d and %d bytes for their branch slice", where(), c, prev, extra))
+			}
+			capExtra[c] = extra
+		}
+		// model
+		linked := make([]bool, k)
+		for i := range linked {
+			linked[i] = true
+		}
+		inClass := false
+		snapshot := func() string {
+			var sb strings.Builder
+			for i := 0; i < k; i++ {
+				fmt.Fprintf(&sb, "%d:%d[", i, segs[i].SizeOf())
+				for _, b := range segs[i].Branches {
+					for j := range segs {
+						if segs[j] == b {
+							fmt.Fprintf(&sb, "%d ", j)
+						}
+					}
+				}
+				sb.WriteString("] ")
+			}
+			return sb.String()
+		}
+		for step, target := range seq {
+			for a := parents[target]; a != 0; a = parents[a] {
+				if !linked[a] {
+					inClass = true
+				}
+			}
+			class := ""
+			if inClass {
+				class = "detach-below-detached"
+			}
+			repeated := !linked[target]
+			before := ""
+			if repeated {
+				before = snapshot()
+			}
+			segs[target].Detach()
+			linked[target] = false
+			if repeated {
+				if after := snapshot(); after != before {
+					report(class, "repeat", fmt.Sprintf("%s: call %d detaches segment %d a second time and is not a no-op; segment:SizeOf[branches] before {%s} after {%s}", where(), step+1, target, before, after))
+				}
+			}
+		}
+		class := ""
+		if inClass {
+			class = "detach-below-detached"
+		}
+		// expectation from the model
+		attached := make([]bool, k)
+		subtree := make([]size.Size, k) // sum of own over the subtree hanging on intact links
+		for i := k - 1; i >= 0; i-- {
+			subtree[i] += own[i]
+			if i > 0 && linked[i] {
+				subtree[parents[i]] += subtree[i]
+			}
+		}
+		attached[0] = true
+		for i := 1; i < k; i++ {
+			attached[i] = linked[i] && attached[parents[i]]
+		}
+		var still []int
+		for i := 0; i < k; i++ {
+			if attached[i] {
+				still = append(still, i)
+			}
+		}
+		for i := 0; i < k; i++ {
+			got := segs[i].SizeOf()
+			if attached[i] && got != subtree[i] {
+				what := fmt.Sprintf("segment %d (still attached)", i)
+				if i == 0 {
+					what = "the root"
+				}
+				report(class, "sum", fmt.Sprintf("%s: SizeOf() of %s is %d, want %d = sum of the sizes of the segments still attached below it (attached to the root: %v, own sizes %v, complete tree %d)", where(), what, got, subtree[i], still, own, full))
+			} else if got > full {
+				report(class, "wrap", fmt.Sprintf("%s: SizeOf() of segment %d is %d, more than the complete tree ever held (%d): the unsigned size wrapped below zero", where(), i, got, full))
+			}
+			var wantBranches, gotBranches []int
+			for j := 1; j < k; j++ {
+				if parents[j] == i && linked[j] {
+					wantBranches = append(wantBranches, j)
+				}
+			}
+			for _, b := range segs[i].Branches {
+				for j := range segs {
+					if segs[j] == b {
+						gotBranches = append(gotBranches, j)
+					}
+				}
+			}
+			if fmt.Sprint(gotBranches) != fmt.Sprint(wantBranches) || len(gotBranches) != len(segs[i].Branches) {
+				report(class, "branches", fmt.Sprintf("%s: Branches of segment %d are %v, want %v", where(), i, gotBranches, wantBranches))
+			}
+		}
+	}
+	var sequences func(seq []int)
+	sequences = func(seq []int) {
+		runSequence(seq)
+		if len(seq) == maxDetach {
+			return
+		}
+		for target := 1; target < len(parents); target++ {
+			sequences(append(append([]int{}, seq...), target))
+		}
+	}
+	var trees func()
+	trees = func() {
+		x.sub["size_accounting_trees"]++
+		sequences(nil)
+		if len(parents) == maxSegments {
+			return
+		}
+		for p := 0; p < len(parents); p++ {
+			parents = append(parents, p)
+			trees()
+			parents = parents[:len(parents)-1]
+		}
+	}
+	parents = []int{-1}
+	trees()
 }
 
 func TestVerifBoundedTraversal(t *testing.T) {
@@ -359,6 +971,16 @@ func TestVerifBoundedTraversal(t *testing.T) {
 			failures = append(failures, r.String()+": "+fmt.Sprintf(format, args...))
 		}
 		failed++
+	}
+	ext := &tvExt{known: tvKnownFromEnv(), hits: map[string]int{}, examples: map[string][]string{}, sub: map[string]int{}}
+	// failIn: a failure of an input that belongs to the deviation class (counted as a known deviation when
+	// the class is named in VERIF_KNOWN, a failure otherwise)
+	failIn := func(class string, r tvRun, format string, args ...any) {
+		if ext.known[class] {
+			ext.hit(class, r.String()+": "+fmt.Sprintf(format, args...))
+			return
+		}
+		fail(r, format, args...)
 	}
 	// after more than 3 hangs (10 s each) the remaining runs are skipped and the result is not exhaustive
 	run := func(r tvRun) (tvOutcome, bool) {
@@ -407,7 +1029,7 @@ func TestVerifBoundedTraversal(t *testing.T) {
 				salt := uint32(seed)*2654435761 + uint32(mask*131+root*17+workers)
 				base := tvRun{g: g, root: root, depth: depth, workers: workers, salt: salt}
 				// 1. plain runs
-				var initial, final size.Size
+				var initial, final, rootOwn size.Size
 				for _, rootSeg := range []bool{false, true} {
 					r := base
 					r.rootSeg = rootSeg
@@ -422,7 +1044,7 @@ func TestVerifBoundedTraversal(t *testing.T) {
 						fail(r, "BreadthFirst returned %q, want nil", o.err)
 					}
 					if rootSeg {
-						initial, final = o.initial, o.fin
+						initial, final, rootOwn = o.initial, o.fin, o.rootOwn
 					}
 				}
 				// 2. memory limit
@@ -456,6 +1078,56 @@ func TestVerifBoundedTraversal(t *testing.T) {
 				// 3. fault injection
 				if faultSample >= 0 && !inFaultSample[mask] {
 					continue
+				}
+				// 2b. (X2) detaching drivers under a memory limit that the true tree size never exceeds
+				if final > 0 {
+					type polRun struct{ policy, set int }
+					polRuns := []polRun{{tvPolTerminalDetach, 0}, {tvPolTerminalPrune, 0}}
+					for set := 1; set < 1<<uint(n); set++ {
+						polRuns = append(polRuns, polRun{tvPolFilterDetach, set}, polRun{tvPolTrunkDetach, set})
+					}
+					for _, pr := range polRuns {
+						r := base
+						r.rootSeg, r.limit, r.policy, r.set = true, final, pr.policy, pr.set
+						o, ran := run(r)
+						if !ran {
+							continue
+						}
+						ext.sub["breadthfirst_detaching_driver_runs"]++
+						wantP := want
+						if pr.policy == tvPolFilterDetach {
+							wantP = tvSequentialAvoid(g, root, depth, pr.set)
+						}
+						report := fail
+						if pr.policy == tvPolTrunkDetach {
+							report = func(r tvRun, format string, args ...any) { failIn("detach-below-detached", r, format, args...) }
+						}
+						if o.hung {
+							hangs++
+							fail(r, "BreadthFirst did not return within %v", tvCallTimeout)
+							continue
+						}
+						if o.panicked != "" {
+							fail(r, "BreadthFirst panicked: %s", o.panicked)
+							continue
+						}
+						if o.leak != "" {
+							fail(r, "goroutine leak: %s", o.leak)
+						}
+						if o.err != nil {
+							// a memory-limit error also cuts the traversal short, so the visit log is not compared
+							report(r, "BreadthFirst returned %q although what is attached to the path tree never exceeds the memory limit %d (size of the complete tree without detaches; root.SizeOf() afterwards: %d)", o.err, final, o.fin)
+							continue
+						}
+						if missing, extra := tvDiff(o.log, wantP); len(missing) > 0 || len(extra) > 0 {
+							fail(r, "visited segments differ from the sequential expansion: lost %v duplicated/foreign %v", missing, extra)
+						}
+						if o.fin < rootOwn || o.fin > final {
+							report(r, "path tree reports %d bytes after the run, outside [%d (the root alone), %d (complete tree without detaches)]", o.fin, rootOwn, final)
+						} else if pr.policy == tvPolTerminalPrune && expansions > 1 && o.fin != rootOwn {
+							report(r, "every segment but the root was detached, yet the path tree reports %d bytes, want %d (the root alone)", o.fin, rootOwn)
+						}
+					}
 				}
 				for k := 1; k <= expansions; k++ {
 					r := base
@@ -514,6 +1186,32 @@ func TestVerifBoundedTraversal(t *testing.T) {
 		}
 	}
 
+	// 5. (X1, X2) extension classes that do not depend on the digraph enumeration
+	extFailed := 0
+	failNow := func(class, msg string) {
+		if class != "" && ext.known[class] {
+			ext.hit(class, msg)
+			return
+		}
+		// the extension may add up to 3 failure strings of its own (at most 8 in all)
+		if extFailed < 3 && len(failures) < 8 {
+			failures = append(failures, msg)
+		}
+		extFailed++
+		failed++
+	}
+	trials, seqLen, maxSegments := 4000, 5, 6
+	if os.Getenv("VERIF_BOUND") == "2" {
+		trials, seqLen, maxSegments = 20000, 6, 7
+	}
+	tvSizeAccounting(ext, maxSegments, 3, failNow)
+	tvSequentialSkipLimit(ext, seqLen, failNow)
+	tvConcurrentSkipLimit(ext, trials, failNow)
+	for _, c := range ext.sub {
+		cases += c
+	}
+	cases -= ext.sub["breadthfirst_detaching_driver_runs"] + ext.sub["size_accounting_trees"] // already counted / not a case
+
 	faultDesc := "on all graphs"
 	if faultSample >= 0 {
 		faultDesc = fmt.Sprintf("on %d graphs drawn from VERIF_SEED", faultSample)
@@ -521,12 +1219,17 @@ func TestVerifBoundedTraversal(t *testing.T) {
 	res := map[string]any{
 		"name": "traversal",
 		"bound": fmt.Sprintf("all digraphs on %d nodes (self loops: %v) x every root x depth<=%d x workers %v x {Root,RootSegment}; memory limits {initial-1, mid, final-1, final}; driver error / context cancellation at every driver invocation k %s",
-			n, selfLoops, depth, workerCounts, faultDesc),
-		"graphs":     total,
-		"cases":      cases,
-		"failed":     failed,
-		"exhaustive": hangs <= 3,
-		"failures":   failures,
+			n, selfLoops, depth, workerCounts, faultDesc) +
+			fmt.Sprintf("; X17: detaching drivers (filter-detach(S), terminal-detach, terminal-prune, trunk-detach(S), S every non-empty node subset) under memory limit = complete tree, %s; all trees with <= %d segments in every creation order x all sequences of <= 3 Detach calls; FilteredSkipLimit sequentially on all filter answer sequences of length <= %d x skip,limit in 0..2; FilteredSkipLimit and atomics.NewCounter[uint32|uint64] shared by W in {1,2,8} goroutines behind a start barrier, skip in {0,1,W}, limit/maximum in {0,1,W-1,W,W+1}, %d trials per configuration", faultDesc, maxSegments, seqLen, trials),
+		"graphs":                  total,
+		"cases":                   cases,
+		"cases_by_extension":      ext.sub,
+		"failed":                  failed,
+		"exhaustive":              hangs <= 3,
+		"failures":                failures,
+		"known_deviation_classes": tvSortedKeys(ext.known),
+		"known_deviation_hits":    ext.hits,
+		"deviation_examples":      ext.examples,
 	}
 	out, _ := json.Marshal(res)
 	fmt.Println("BOUNDED-RESULT " + string(out))
